@@ -54,6 +54,7 @@ def check(fx, rep, tier):
     rep.rule('R14.3', 'the interface description is serialised as its Display text and parsed back by the same entry function')
     rep.rule('R14.4', 'each node\'s Display reads every field of the node')
     rep.rule('R14.5', 'the element parser behind `[]` / `[string]` is the full type parser used for field types')
+    rep.rule('R14.7', 'a line comment is confined to its line: comment_def calls no newline-consuming parser before its text and scans up to the newline')
     rep.rule('R14.6', 'comments are recognised only in ws / comment_def: no other function tests for `#` and advances the input')
     t = fx.tpl
     disp = display_impls(t)
@@ -242,4 +243,21 @@ def check(fx, rep, tier):
               'comments are recognised only in %s' % sorted(hashers),
               'the set of parser functions that look for `#` is %s, expected {comment_def, ws}: a comment that is recognised and skipped elsewhere is not attached to '
               'its member and is lost when the description is parsed back' % sorted(hashers))
+    # ---- R14.7 a line comment is confined to its line
+    cd = byname.get('comment_def')
+    if cd is None:
+        rep.bad('R14.7', 'comment_def|anchor', IDL + '/parse/mod.rs', 'comment_def not found')
+    else:
+        bad = []
+        for blk, tm in cd.iter_terms('call'):
+            d = tm['callee'].get('def') or ''
+            a = tm['callee'].get('args') or ''
+            if d.split('::')[-1] in ('ws', 'whitespace_only', 'parse_preceding_comments') or 'multispace' in a or 'multispace' in d or 'line_ending' in a or 'newline' in a:
+                bad.append('%s at %s' % (d.split('::')[-1] if d.startswith('idl::parse') else re.sub(r'.*(multispace\d|line_ending|newline).*', r'\1', a), C.where(cd, blk)))
+        # the text scan stops at the newline
+        stops = any(o.get('k') == 'const' and o.get('val') == 10 for c2 in [cd] + C.nested(crate, cd) for blk, i, st in c2.iter_assigns()
+                    for o in [st['rv'].get('a'), st['rv'].get('b')] if isinstance(o, dict))
+        rep.check(not bad and stops, 'R14.7', 'comment_def|confined-to-line', cd.where(),
+                  'between `#` and the end of the line the comment parser calls nothing that can consume a newline, and its text scan stops at the newline',
+                  'the comment parser can consume a newline before reading the comment text (%s): an empty comment swallows the following line, so `# ` + next line do not survive a round trip' % (bad or 'no scan up to the newline found'))
     return META
